@@ -6,17 +6,24 @@
 # replay files redirected to a scratch directory, and records the outcome in
 # seeded/<id>/meta.json and seeded/MATRIX.md.  /repo and /verif/evidence are
 # not touched.
+# MATRIX_LANE / MATRIX_LANES split the work over parallel invocations (each with
+# its own worktree); MATRIX_WORKERS is passed to the checks. With lanes the
+# partial tables stay in seeded/MATRIX.part<lane>; tools/seeded_matrix_all.sh
+# runs the lanes and merges them.
 set -u
+LANE=${MATRIX_LANE:-0}; LANES=${MATRIX_LANES:-1}; W=${MATRIX_WORKERS:-16}
 cd /verif
 sel="${*:-}"
-WT=/tmp/matrix_wt; OUT=/tmp/matrix_out
+WT=/tmp/matrix_wt$LANE; OUT=/tmp/matrix_out$LANE
 git -C /repo worktree remove --force $WT >/dev/null 2>&1; rm -rf $WT $OUT
 git -C /repo worktree add --detach $WT HEAD >/dev/null 2>&1 || { echo "cannot create scratch worktree"; exit 2; }
 export SYMGO_SCRATCH_OUT=$OUT
-out=seeded/MATRIX.tmp
+out=seeded/MATRIX.tmp$LANE
+n=0
 : > $out
 for d in seeded/C*-m*; do
   id=$(basename $d); prop=${id%%-*}
+  n=$((n+1)); [ $((n % LANES)) -eq $LANE ] || continue
   if [ -n "$sel" ]; then ok=0; for s in $sel; do case $id in $s*) ok=1;; esac; done; [ $ok = 1 ] || continue; fi
   git -C $WT reset -q --hard HEAD; git -C $WT clean -fdq
   if ! git -C $WT apply --3way $PWD/$d/patch.diff >/dev/null 2>&1 && ! git -C $WT apply $PWD/$d/patch.diff >/dev/null 2>&1; then
@@ -24,13 +31,14 @@ for d in seeded/C*-m*; do
     echo "$id|does not apply on the current tree (the code it changed was since repaired)|-" >> $out; continue
   fi
   tier=quick
-  log=$(./check $prop -repo $WT 2>&1); rc=$?
-  if [ $rc -eq 0 ]; then tier=thorough; log=$(./check $prop --tier thorough -repo $WT 2>&1); rc=$?; fi
+  log=$(./check $prop -repo $WT -workers $W 2>&1); rc=$?
+  if [ $rc -eq 0 ]; then tier=thorough; log=$(timeout 3000 ./check $prop --tier thorough -repo $WT -workers $W 2>&1); rc=$?; fi
   git -C $WT reset -q --hard HEAD
   labels=$(echo "$log" | grep -A1 '^VIOLATION' | grep 'harness=' | sed 's/^ *//' | sort -u | head -3 | tr '\n' ';')
   case $rc in
     1) res="caught ($tier): $labels";;
     0) res="MISSED";;
+    124) res="MISSED by quick; thorough did not finish within 50 min";;
     *) res="inconclusive ($tier): $(echo "$log" | grep INCONCLUSIVE | head -1 | cut -c1-200)";;
   esac
   echo "$id|$res|$rc" >> $out
@@ -42,5 +50,6 @@ PY
 done
 git -C /repo worktree remove --force $WT; rm -rf $OUT
 { echo "| seeded change | outcome of ./check <property> |"; echo "|---|---|"; sort $out | awk -F'|' '{print "| "$1" | "$2" |"}'; } > seeded/MATRIX.new
-if [ -z "$sel" ]; then mv seeded/MATRIX.new seeded/MATRIX.md; else cat seeded/MATRIX.new; fi
+if [ "$LANES" -gt 1 ]; then cp $out seeded/MATRIX.part$LANE
+elif [ -z "$sel" ]; then mv seeded/MATRIX.new seeded/MATRIX.md; else cat seeded/MATRIX.new; fi
 rm -f $out seeded/MATRIX.new
